@@ -57,6 +57,9 @@ var c01Deterministic = []string{
 	"x='ab'; i=0; while i < 60 { x = x + x; i = i + 1 }; 1", "1a2m100000000", "1c2m100000000",
 	"&a = a; a", "this.x = 5; x", "dct = {}; dct.k = dct['j'] = []", "x.y = z.w = 5",
 	"d = {}; d.me = d; toStr(d)", "xs = [1]; xs.push(xs); repr(xs)",
+	"^sta-0*[1]", "^sta-1>2?'x':'y'", "xs=[1]; xs[0]=xs; ys=[1]; ys[0]=ys; xs==ys", "i=0; while i<2 { func g() { if 1 { break } }; g(); i=i+1 }; i",
+	"s='0123456789012345678901234567890123456789012345678901234567890123'; s[64]", "dd = {}; dd.__proto__ = dd; dd.x", "aa = {}; bb = {}; bb.__proto__ = bb; aa.__proto__ = bb; aa.x",
+	"x=[1]; i=0; while i<40 { x=[x,x]; i=i+1 }; y=[1]; i=0; while i<40 { y=[y,y]; i=i+1 }; x==y",
 }
 
 func c01N(tier string) int {
@@ -116,6 +119,15 @@ func c01Case(w *fw.W, idx int, r *fw.Rand) {
 	defer hook.Set(nil)
 
 	vm := cfg.NewVM()
+	if r.Bool() || idx < len(c01Deterministic) {
+		// a host that listens to st edits
+		vm.Config.CallbackSt = func(_type string, name string, val *ds.VMValue, extra *ds.VMValue, op string, detail string) {
+			_ = val.ToString()
+			if extra != nil {
+				_ = extra.ToString()
+			}
+		}
+	}
 	aborted := false
 	guard := func(what string, f func()) bool {
 		pv, st := fw.Guard(f)
@@ -203,9 +215,8 @@ func c01Case(w *fw.W, idx int, r *fw.Rand) {
 			guard("Parse(bad)", func() { _ = vm.Parse("(1 +") })
 			observe()
 		}
-		if r.P(1, 4) {
-			guard("Attrs.ToJSON", func() { _, _ = vm.Attrs.ToJSON() })
-		}
+		// (Attrs.ToJSON is not among the observations the property lists; C09/C10 cover it. A value
+		// with heavily shared sub-structure legitimately expands exponentially in a tree format.)
 		if r.P(1, 4) {
 			mon.Ticks, mon.Rolls = 0, 0
 			guard("Run(again)", func() { _ = vm.Run(src) })
